@@ -206,7 +206,11 @@ Fixpoint others_leaf (dflt : bool) (others : list tree) (k : string) : res (list
   end.
 
 (* the operands handed to a nested level: with default=, a missing one is replaced by self.empty(recurse=True)
-   — of THIS level's self, not of the nested item *)
+   — of THIS level's self, not of the nested item.
+   DEFECT C20-b.  When /repo is repaired (item.empty(recurse=True)): pass the item's (meta, forest) instead of (sm, sf)
+   at the two call sites (apply_items here, flat_items in C20_Sched.v); the stand-in then belongs to the nested level
+   itself, and the hypothesis of C20_apply_spec_partial becomes "no nested tensordict holds a nested tensordict or
+   non-tensor entry under a key of one of its own tensor entries' siblings" — to be re-derived then. *)
 Fixpoint others_node (dflt : bool) (sm : meta) (sf : forest) (others : list tree) (k : string) : res (list tree) :=
   match others with
   | [] => Ok []
@@ -235,7 +239,9 @@ Definition result_meta (sm : meta) (names : option dnames) : meta :=
          false.
 Definition make_result (sm : meta) (names : option dnames) : racc := mkAcc New (result_meta sm names) FNil.
 
-(* NonTensorData._apply_nest: out if given, else self.empty(batch_size=…, device=…) — fn is not called *)
+(* NonTensorData._apply_nest: out if given, else self.empty(batch_size=…, device=…) — fn is not called.
+   DEFECT C20-f: with out= the entry of out is returned untouched (self's data is not written).  When repaired
+   (a copy of self, or out.update(self)): drop the [Some t => t] branch. *)
 Definition nont_apply (d : Z) (m : meta) (out_k : option tree) : tree :=
   match out_k with Some t => t | None => NonT New d (result_meta m None) end.
 
@@ -318,7 +324,9 @@ Definition set_item (r : racc) (k : string) (v : tree) : res racc :=
       | Leaf s _, Leaf _ x => Ok (mkAcc (r_obj r1) (r_meta r1) (fset (r_f r1) k (Leaf s x)))    (* dest.copy_(value) *)
       | Leaf _ _, _ => Raised EValue
       | NonT od _ dm, NonT _ vp _ =>
-          (* dest.update(value, inplace=True): self.data = value.data (the same payload, unless out= supplied the value) *)
+          (* dest.update(value, inplace=True): self.data = value.data (the same payload, unless out= supplied the value).
+             DEFECT C20-c: the lock refuses self.data = data although nothing changes.  When repaired (the write is
+             skipped for an untouched non-tensor entry): replace [Raised EValue] by [Ok r1]. *)
           if m_lock dm then Raised EValue else Ok (mkAcc (r_obj r1) (r_meta r1) (fset (r_f r1) k (NonT od vp dm)))
       | NonT _ _ _, Leaf New _ => Raised EValue            (* a tensor returned by fn over a non-tensor entry *)
       | NonT _ _ _, _ => Unmodelled                        (* an entry of out= of another kind handed back for a non-tensor entry *)
